@@ -67,6 +67,26 @@ impl Recorder for Probe {
     }
 }
 
+/// A thread-local recorder double (never installed globally).
+struct LocalProbe {
+    id: usize,
+}
+impl Recorder for LocalProbe {
+    fn describe_counter(&self, _: KeyName, _: Option<Unit>, _: SharedString) {}
+    fn describe_gauge(&self, _: KeyName, _: Option<Unit>, _: SharedString) {}
+    fn describe_histogram(&self, _: KeyName, _: Option<Unit>, _: SharedString) {}
+    fn register_counter(&self, _: &Key, _: &Metadata<'_>) -> Counter {
+        metrics::verif::point("local.dispatch.post", &[self.id as i64]);
+        Counter::noop()
+    }
+    fn register_gauge(&self, _: &Key, _: &Metadata<'_>) -> Gauge {
+        Gauge::noop()
+    }
+    fn register_histogram(&self, _: &Key, _: &Metadata<'_>) -> Histogram {
+        Histogram::noop()
+    }
+}
+
 #[derive(Clone, Debug)]
 struct Scenario {
     ninst: usize,
@@ -124,8 +144,27 @@ fn run_scheduled(sc: &Scenario, rng: &mut rand::rngs::StdRng, global: bool) -> (
             Some(c) => CellKind::Fresh(c.clone()),
             None => CellKind::Global,
         };
+        // global mode: some emitters hold a thread-local recorder for a while first (taken before, during or after the
+        // installations, as the schedule has it); once that scope has ended the thread has no local recorder and its
+        // emissions must go through the global cell like everybody else's
+        let scoped = global && (tid + sc.ninst + per) % 2 == 0;
         hs.push(s.spawn(tid, move || {
-            for _ in 0..per {
+            if scoped {
+                let local = LocalProbe { id: tid };
+                {
+                    let _g = metrics::set_default_local_recorder(&local);
+                    metrics::verif::point("scope.enter.pre", &[tid as i64]);
+                    metrics::counter!("c").increment(1); // to the local recorder: must not touch the global cell
+                    metrics::verif::point("scope.inner.pre", &[tid as i64]);
+                }
+                metrics::verif::point("scope.exit.pre", &[tid as i64]);
+                metrics::with_local_recorder(&local, || {
+                    metrics::counter!("c").increment(1);
+                    metrics::verif::point("scope.inner.pre", &[tid as i64]);
+                });
+                metrics::verif::point("scope.exit.pre", &[tid as i64]);
+            }
+            for k in 0..per {
                 match &c {
                     CellKind::Fresh(c) => {
                         // the global branch of with_recorder
@@ -137,7 +176,7 @@ fn run_scheduled(sc: &Scenario, rng: &mut rand::rngs::StdRng, global: bool) -> (
                         metrics::counter!("c").increment(1);
                     }
                 }
-                metrics::verif::point("emit.done.post", &[]);
+                metrics::verif::point("emit.done.post", &[k as i64 + 1]);
             }
         }));
     }
